@@ -104,6 +104,13 @@ impl CleanMarkerStore {
             return Err(crate::wal::verif::injected_error());
         }
         fs::rename(&tmp_path, path)?;
+        // make the rename durable (see WalIndex::persist)
+        if let Some(dir) = std::path::Path::new(path)
+            .parent()
+            .filter(|p| !p.as_os_str().is_empty())
+        {
+            fs::File::open(dir)?.sync_all()?;
+        }
         Ok(())
     }
 }
